@@ -225,9 +225,11 @@ func checkC16(c *Ctx) {
 	// R5: sort key agreement
 	r5 := c.R.Rule("C16-R5", "the credential table is sorted by exactly the record field(s) the lookup predicate compares", "E10 sibling agreement on fields read", 1)
 	fh := c.P.Func(authPkg, "FileHandler")
-	auth := c.P.Func(authPkg, "fileHandler.Authenticate")
-	if r5.Anchor(fh != nil, "auth.FileHandler") && r5.Anchor(auth != nil, "auth.fileHandler.Authenticate") {
-		isRec := func(t types.Type) bool { return isNamed(t, "wasp/auth", "fileRecord") }
+	auth := c.authHandlerOf(authPkg, "FileHandler")
+	if r5.Anchor(fh != nil, "auth.FileHandler") && r5.Anchor(auth != nil, "Authenticate of the handler built by auth.FileHandler") {
+		// the record type: the element type of the table that gets sorted (whatever its name)
+		var recType types.Type
+		isRec := func(t types.Type) bool { return recType != nil && types.Identical(derefT(t), recType) }
 		var lessFields, predFields []string
 		stable := c.P.FuncObj("sort", "SliceStable")
 		slice := c.P.FuncObj("sort", "Slice")
@@ -235,6 +237,9 @@ func checkC16(c *Ctx) {
 		n := 0
 		for _, call := range c.callsToDeep(fh, 3, stable, slice, srt) {
 			n++
+			if sl, ok := boxedType(call.Arg(0)).Underlying().(*types.Slice); ok {
+				recType = derefT(sl.Elem())
+			}
 			var less *ssa.Function
 			if lf := closureArg(call.Arg(1)); lf != nil {
 				less = lf
@@ -259,7 +264,7 @@ func checkC16(c *Ctx) {
 				predFields = append(predFields, fieldsRead(pf, isRec)...)
 			}
 		}
-		key := "sort key of the table built by auth.FileHandler vs search key of fileHandler.Authenticate"
+		key := "sort key of the table built by auth.FileHandler vs search key of its Authenticate"
 		switch {
 		case n == 0:
 			r5.Fail(key, c.where(fh, fh), "the table is never sorted although the lookup is a binary search")
@@ -418,15 +423,16 @@ func (c *Ctx) checkLenSwitchIndex(f *ssa.Function, ru interface {
 
 func (c *Ctx) checkAuthHandlers(authPkg string) {
 	ru := c.R.Rule("C16-R2", "a credential handler returns a nil error only on paths where an equality involving the presented username and one involving the presented password both held; the mount point returned is the default constant or a field of the matched record", "E1 pathspec + E3 provenance", 2)
-	for _, hn := range []string{"staticHandler.Authenticate", "fileHandler.Authenticate"} {
-		f := c.P.Func(authPkg, hn)
-		if !ru.Anchor(f != nil, "auth."+hn) {
+	hs := c.credentialHandlers(authPkg)
+	for _, hn := range []string{"StaticHandler", "FileHandler"} {
+		f := hs[hn]
+		if !ru.Anchor(f != nil, "Authenticate of the handler built by auth."+hn) {
 			continue
 		}
 		c.R.Fn(c.fname(f))
 		paths, err := c.pathsInlinedPkg(f, core.PathOpts{}, nil)
 		if err != nil {
-			ru.Undecided("paths of auth."+hn, c.where(f, f), err.Error())
+			ru.Undecided("paths of the handler built by auth."+hn, c.where(f, f), err.Error())
 			continue
 		}
 		ru.Evals(len(paths))
@@ -490,7 +496,7 @@ func (c *Ctx) checkAuthHandlers(authPkg string) {
 				break
 			}
 		}
-		key := "accepting paths of auth." + hn
+		key := "accepting paths of the handler built by auth." + hn
 		if bad != "" {
 			ru.Fail(key, c.where(f, f), bad)
 		} else if okPaths == 0 {
@@ -794,4 +800,37 @@ func reachesBothDeep(args []ssa.Value, a, b func(ssa.Value) bool) bool {
 		}
 	}
 	return u && p
+}
+
+// authHandlerOf returns the Authenticate method of the handler type built by the exported constructor ctor of wasp/auth
+// (found through the value the constructor boxes into the AuthenticationHandler interface, not by the type's name).
+func (c *Ctx) authHandlerOf(authPkg, ctor string) *ssa.Function {
+	f := c.P.Func(authPkg, ctor)
+	if f == nil {
+		return nil
+	}
+	for _, g := range c.funcsDeep(f, 2) {
+		for _, b := range g.Blocks {
+			for _, in := range b.Instrs {
+				mi, ok := in.(*ssa.MakeInterface)
+				if !ok || !isNamed(mi.Type(), authPkg, "AuthenticationHandler") {
+					continue
+				}
+				if sel := c.P.SSA.MethodSets.MethodSet(mi.X.Type()).Lookup(f.Pkg.Pkg, "Authenticate"); sel != nil {
+					if m := c.P.SSA.MethodValue(sel); m != nil {
+						return m
+					}
+				}
+			}
+		}
+	}
+	return nil
+}
+
+// credentialHandlers: the Authenticate methods of the handlers that compare credentials locally (static pair, credentials file).
+func (c *Ctx) credentialHandlers(authPkg string) map[string]*ssa.Function {
+	return map[string]*ssa.Function{
+		"StaticHandler": c.authHandlerOf(authPkg, "StaticHandler"),
+		"FileHandler":   c.authHandlerOf(authPkg, "FileHandler"),
+	}
 }
